@@ -14,6 +14,17 @@ for d in sorted(os.listdir(os.path.join(VERIF, "seeded"))):
     needs = (m.get("needs") or "").replace("|", "/").replace("\n", " ")[:130]
     how = ("failing input, oracle `%s`" % cb.get("sig")) if cb.get("kind") == "failing-input" else \
           ("proof/correspondence broke, no failing input" if oc.get("check_violation_line") else "MISSED")
+    if m.get("status_after_fix_127902b") and how == "MISSED":
+        how = "behaviour-neutral since fix 127902b (caught on the pre-fix tree: oracle `C18:ADC:half-step`)"
     rows.append(f"| {d} | {title} | {needs} | {oc.get('tier','quick')}: {how} |")
-print("| seeded change | what | needs | caught by |\n|---|---|---|---|")
-print("\n".join(rows))
+if "--write" not in __import__("sys").argv: print("| seeded change | what | needs | caught by |\n|---|---|---|---|")
+if "--write" not in __import__("sys").argv: print("\n".join(rows))
+
+if "--write" in __import__("sys").argv:
+    p = os.path.join(VERIF, "DESIGN.md")
+    s = open(p).read()
+    a = s.index("<!-- SEED-TABLE-BEGIN")
+    a = s.index("\n", a) + 1
+    b = s.index("<!-- SEED-TABLE-END -->")
+    s = s[:a] + "| seeded change | what | needs | caught by |\n|---|---|---|---|\n" + "\n".join(rows) + "\n" + s[b:]
+    open(p, "w").write(s)
